@@ -13,6 +13,59 @@ CLAIMED = ['C01', 'C02', 'C03', 'C04', 'C05', 'C06', 'C07', 'C08', 'C09', 'C10',
            'C12', 'C13', 'C14', 'C16', 'C17', 'C19']
 
 
+def anchored_modules(pid, repo):
+    """module names of the files a property is anchored in (properties.jsonl)"""
+    here = os.path.dirname(os.path.dirname(os.path.abspath(__file__)))
+    mods = set()
+    with open(os.path.join(here, 'properties.jsonl')) as f:
+        for line in f:
+            r = json.loads(line)
+            if r.get('id') == pid:
+                for fn in (r.get('anchors') or {}).get('files') or []:
+                    m = os.path.basename(fn)[:-3] if fn.endswith('.py') else None
+                    if m and m in repo.modules:
+                        mods.add(m)
+    return mods or None
+
+
+def relevant_functions(pid, repo):
+    """functions a property answers for: those its anchors name plus everything they may call inside the package
+    (sa/anchors.json, tools/mkanchors.py), plus functions the pinned tree does not have in the same modules (a new helper
+    belongs to whoever calls it).  None = no restriction (anchors unknown)."""
+    here = os.path.dirname(os.path.abspath(__file__))
+    try:
+        with open(os.path.join(here, 'anchors.json')) as f:
+            cl = set(json.load(f)['properties'][pid]['closure'])
+    except (OSError, KeyError, ValueError):
+        return None
+    if not cl:
+        return None
+    from .loader import known_symbols
+    known = known_symbols()
+    mods = {q.split('.')[0] for q in cl}
+    for q, fi in repo.funcs.items():
+        if fi.module in mods:
+            k = known.get(fi.module) or {}
+            name = f'{fi.cls}.{fi.name}' if fi.cls else fi.name
+            if name not in (k.get('functions') or []) and name not in (k.get('methods') or []) and name not in (k.get('locals') or {}):
+                cl.add(q)
+    return cl
+
+
+def generic_rules(chk, repo, pid):
+    """Every property is quantified over all inputs, all sizes and all call histories.  Three necessary conditions follow
+    for the functions it depends on, whatever they compute: nothing survives a call (STATE), stores into preallocated
+    typed arrays keep the element type (STORAGE), no read of a local that some path leaves unbound (DEFINED).  C19 is
+    about every public operation and takes the whole package."""
+    from .props import support
+    only = None if pid == 'C19' else relevant_functions(pid, repo)
+    mods = anchored_modules(pid, repo) if only is None else {q.split('.')[0] for q in only}
+    support.state_rules(chk, repo, f'{pid}.STATE', mods, only=only)
+    if pid not in ('C03', 'C05', 'C06', 'C07'):
+        support.storage_type_rules(chk, repo, f'{pid}.STORAGE', mods, only=only)
+    support.defassign_rules(chk, repo, f'{pid}.DEFINED', mods, only=only)
+
+
 def run_one(pid, tier, seed, only_key=None):
     try:
         mod = importlib.import_module(f'sa.props.{pid}')
@@ -24,6 +77,7 @@ def run_one(pid, tier, seed, only_key=None):
         chk = Check(pid, tier, repo)
         try:
             explanation, rule_text = mod.run(chk, repo, tier)
+            generic_rules(chk, repo, pid)
         except AnalysisError as e:
             # obligations that already failed are findings in their own right: they are reported (exit 1) even though the
             # rest of the analysis could not be completed; without any, the run is an analysis error (exit 2)
